@@ -179,6 +179,8 @@ def newton_raphson(net, funct, mode, solver_vars, tols, pit_names, iter_name):
 
 def bidirectional(net):
     net.converged = False
+    # hydraulic results of an earlier run are no longer available once a new calculation starts
+    set_user_pf_options(net, hyd_flag=False)
     if not get_net_option(net, "reuse_internal_data") or "_internal_data" not in net:
         net["_internal_data"] = dict()
     solver_vars = ['mdot', 'p', 'TOUT', 'T']
@@ -199,6 +201,8 @@ def hydraulics(net):
     # Start of nonlinear loop
     # ---------------------------------------------------------------------------------------------
     net.converged = False
+    # hydraulic results of an earlier run are no longer available once a new calculation starts
+    set_user_pf_options(net, hyd_flag=False)
     reduce_pit(net, mode="hydraulics")
     if not get_net_option(net, "reuse_internal_data") or "_internal_data" not in net:
         net["_internal_data"] = dict()
